@@ -171,6 +171,27 @@ impl Minifier
 	}
 
 	/// The first pass makes intra-line transformations, which may include deleting the line.
+	/// Is the last named leaf before this node a variable name (as opposed to a keyword or a literal)
+	fn follows_name(node: &tree_sitter::Node) -> bool {
+		let mut curr = *node;
+		loop {
+			let mut maybe_prev = curr.prev_sibling();
+			while let Some(prev) = maybe_prev {
+				if prev.is_named() {
+					let mut leaf = prev;
+					while leaf.child_count()>0 {
+						leaf = leaf.child(leaf.child_count()-1).unwrap();
+					}
+					return leaf.kind().starts_with("name_");
+				}
+				maybe_prev = prev.prev_sibling();
+			}
+			match curr.parent() {
+				Some(parent) if parent.kind()!="line" => curr = parent,
+				_ => return false
+			}
+		}
+	}
     fn visit_pass1(&mut self,curs:&tree_sitter::TreeCursor) -> Result<Navigation,DYNERR> {
 		let node_str: String = lang::node_text(&curs.node(),&self.line);
 
@@ -211,7 +232,13 @@ impl Minifier
 				if !self.needs_guard(&txt,curs) {
 					self.minified_line += &txt[0..2];
 				} else {
-					if txt.len() > 4 {
+					// an opening parenthesis directly behind a variable would turn that variable into an array reference
+					let behind_variable = match self.minified_line.chars().last() {
+						Some(c) if c=='$' || c=='%' => true,
+						Some(c) if c.is_ascii_alphanumeric() => Self::follows_name(&curs.node()),
+						_ => false
+					};
+					if txt.len() > 4 && !behind_variable {
 						// if it is longer than 4 characters we gain something by guarding with parenthesis
 						self.minified_line += "(";
 						self.minified_line += &txt[0..2];
